@@ -59,5 +59,39 @@ def scalar(inp):
     return ok, "scalar bijections"
 
 
-NATIVE = {"lp": lp, "scalar": scalar}
+def lsf(inp):
+    """polynomial <-> line spectral frequencies on the real functions: defining roots, round trip, ordering"""
+    import math
+    import spectrum.linear_prediction as L
+    p0 = int(inp.get("p", 4))
+    pt = inp.get("point") or {}
+    for p in sorted({p0, 2, 3, 4, 7}):
+        if p == p0 and pt and all(("t%d" % j) in pt for j in range(p)):
+            from fractions import Fraction
+            w = np.array(sorted(abs(2 * math.atan(float(Fraction(pt["t%d" % j])))) for j in range(p)))
+            if np.min(np.diff(np.concatenate(([0.0], w, [math.pi])))) < 1e-3:
+                w = np.linspace(0.2, 2.9, p) + 0.03 * np.cos(np.arange(p))
+        else:
+            w = np.linspace(0.2, 2.9, p) + 0.03 * np.cos(np.arange(p))
+        a = np.asarray(L.lsf2poly(w))
+        if a.shape != (p + 1,) or abs(a[0] - 1) > 1e-12 or np.max(np.abs(np.imag(a))) > 1e-12:
+            return False, "lsf2poly(order %d): not a real monic polynomial of degree p: %r" % (p, a)
+        a = np.real(a)
+        a1 = np.concatenate((a, [0.0]))
+        summ, diff = a1 + a1[::-1], a1 - a1[::-1]
+        for j, wj in enumerate(w):
+            val = np.polyval(summ if j % 2 == 0 else diff, np.exp(1j * wj))
+            if abs(val) > 1e-8 * (1 + np.sum(np.abs(a))):
+                return False, "lsf2poly(order %d, w = %s): %s filter does not vanish at exp(i*w[%d]) (|value| = %.3g)" % (
+                    p, np.round(w, 4), "sum" if j % 2 == 0 else "difference", j, abs(val))
+        if np.max(np.abs(np.roots(a))) < 1:
+            back = np.asarray(L.poly2lsf(a))
+            if back.shape != w.shape or not close(back, w, 1e-7):
+                return False, "poly2lsf(lsf2poly(w)) != w at order %d: %s vs %s" % (p, np.round(back, 5), np.round(w, 5))
+            if not (np.all(np.diff(back) > 0) and back[0] > 0 and back[-1] < math.pi):
+                return False, "poly2lsf: frequencies not strictly increasing inside (0, pi) at order %d" % p
+    return True, "lsf2poly / poly2lsf consistent with the sum / difference filter definition"
+
+
+NATIVE = {"lp": lp, "scalar": scalar, "lsf": lsf}
 SEARCH = {k: (lambda rng, h: dict(h)) for k in NATIVE}
